@@ -65,7 +65,10 @@ Inductive lss_op :=
 | OIdentRemote (v p rl rh sl sh : Z)
 | OIdentNonCfg
 | OFastScan
-| OInject (cobid : Z) (f : list Z).      (* not a call: another device's frame arrives *)
+| OInject (cobid : Z) (f : list Z)       (* not a call: another device's frame arrives *)
+| ONet.                                  (* Network.connect / disconnect / __exit__ on the same Network object: the
+                                            subscription of LssMaster.on_message_received made in Network.__init__ and
+                                            the master's queue belong to the Network object and survive *)
 
 Definition unit_val (_ : unit) : val := VNone.
 Definition scan_val (r : bool * option (list Z)) : val :=
@@ -232,6 +235,7 @@ Section Master.
     | OIdentNonCfg => out unit_val (identify_non_configured st)
     | OFastScan => out scan_val (fast_scan st)
     | OInject c f => (inject st c f, VNone)
+    | ONet => (st, VNone)
     end.
 End Master.
 
